@@ -79,10 +79,16 @@ structure Naming where
   cfg : Cfg := {}
   deriving Repr
 
+def insertByTime {α : Type} (x : Int × α) : List (Int × α) → List (Int × α)
+  | [] => [x]
+  | y :: ys => if x.1 ≤ y.1 then x :: y :: ys else y :: insertByTime x ys
+
+/-- stable sort by time (the `BTreeMap<u64, LinkedList<T>>` iteration order) -/
+def sortByTime {α : Type} (l : List (Int × α)) : List (Int × α) := l.foldr insertByTime []
+
 /-- `TimeoutSet::timeout(now)`: entries with `t ≤ now`, by ascending time (stable), and the rest -/
 def toSplit {α : Type} (l : List (Int × α)) (now : Int) : List α × List (Int × α) :=
-  let due := l.filter (·.1 ≤ now)
-  ((due.mergeSort fun a b => a.1 ≤ b.1).map (·.2), l.filter fun e => !(e.1 ≤ now))
+  ((sortByTime (l.filter (·.1 ≤ now))).map (·.2), l.filter fun e => !(e.1 ≤ now))
 
 def setInsert {α : Type} [DecidableEq α] (l : List α) (a : α) : List α := if a ∈ l then l else l ++ [a]
 
@@ -92,59 +98,71 @@ inductive UpdType where
   | none | new | updateValue | updateTime
   deriving DecidableEq, Repr
 
+/-- an HTTP (non-gRPC) ephemeral update over a gRPC instance keeps the gRPC ownership -/
+def keepOwner (inst old : Inst) : Inst :=
+  if inst.ephemeral && !inst.fromGrpc && old.fromGrpc then
+    { inst with fromGrpc := old.fromGrpc, clientId := old.clientId, fromCluster := old.fromCluster }
+  else inst
+
+/-- which of enabled / ephemeral / weight the update may change -/
+def applyTag (i1 old : Inst) : Option Tag → Inst × UpdType
+  | none => (i1, UpdType.updateValue)
+  | some t =>
+    if !t.isNone then
+      ({ i1 with enabled := if !t.enabled then old.enabled else i1.enabled,
+                 ephemeral := if !t.ephemeral then old.ephemeral else i1.ephemeral,
+                 weight := if !t.weight then old.weight else i1.weight }, UpdType.updateValue)
+    else
+      ({ i1 with enabled := old.enabled, ephemeral := old.ephemeral, weight := old.weight }, UpdType.updateTime)
+
+/-- bookkeeping when the stored instance `old` is replaced by `i2` -/
+def Svc.replaceInst (s : Svc) (old i2 : Inst) (fromSync : Bool) : Svc :=
+  { s with insts := AL.set s.insts i2.short i2,
+           healthySize := (if !old.healthy && i2.healthy then s.healthySize + 1
+                           else if old.healthy && !i2.healthy then s.healthySize - 1 else s.healthySize),
+           healthyTO := (if i2.enableTimeout && !fromSync then s.healthyTO ++ [(i2.lastModified, i2.short)] else s.healthyTO),
+           perpetual := (if !i2.ephemeral && old.ephemeral then setInsert s.perpetual i2.short
+                         else if i2.ephemeral && !old.ephemeral then s.perpetual.erase i2.short else s.perpetual) }
+
+/-- bookkeeping for a new instance -/
+def Svc.insertInst (s : Svc) (inst : Inst) (fromSync : Bool) : Svc :=
+  { s with insts := AL.set s.insts inst.short inst, instSize := s.instSize + 1,
+           healthySize := (if inst.healthy then s.healthySize + 1 else s.healthySize),
+           healthyTO := (if inst.enableTimeout && !fromSync then s.healthyTO ++ [(inst.lastModified, inst.short)] else s.healthyTO),
+           perpetual := (if !inst.ephemeral then setInsert s.perpetual inst.short else s.perpetual) }
+
 /-- `Service::update_instance`; returns the service, the kind of update and the client id whose reverse
 entry must be dropped -/
 def Svc.updateInstance (s : Svc) (inst0 : Inst) (tag : Option Tag) (fromSync : Bool) :
     Svc × UpdType × Option String :=
-  let key := inst0.short
-  match AL.get? s.insts key with
+  match AL.get? s.insts inst0.short with
   | some old =>
-    -- an HTTP (non-gRPC) ephemeral update over a gRPC instance keeps the gRPC ownership
-    let i1 := if inst0.ephemeral && !inst0.fromGrpc && old.fromGrpc then
-        { inst0 with fromGrpc := old.fromGrpc, clientId := old.clientId, fromCluster := old.fromCluster }
-      else inst0
-    let replaceOld := if !old.clientId.isEmpty && i1.clientId != old.clientId then some old.clientId else none
-    let hs := if !old.healthy && i1.healthy then s.healthySize + 1
-              else if old.healthy && !i1.healthy then s.healthySize - 1 else s.healthySize
-    let (i2, rtype) := match tag with
-      | none => (i1, UpdType.updateValue)
-      | some t =>
-        if !t.isNone then
-          ({ i1 with enabled := if !t.enabled then old.enabled else i1.enabled,
-                     ephemeral := if !t.ephemeral then old.ephemeral else i1.ephemeral,
-                     weight := if !t.weight then old.weight else i1.weight }, UpdType.updateValue)
-        else
-          ({ i1 with enabled := old.enabled, ephemeral := old.ephemeral, weight := old.weight }, UpdType.updateTime)
-    let addPerp := !i2.ephemeral && old.ephemeral
-    let remPerp := i2.ephemeral && !old.ephemeral
-    let hto := if i2.enableTimeout && !fromSync then s.healthyTO ++ [(i2.lastModified, key)] else s.healthyTO
-    let perp := if addPerp then setInsert s.perpetual key
-                else if remPerp then s.perpetual.erase key else s.perpetual
-    ({ s with insts := AL.set s.insts key i2, healthySize := hs, healthyTO := hto, perpetual := perp },
-      rtype, replaceOld)
-  | none =>
-    let hto := if inst0.enableTimeout && !fromSync then s.healthyTO ++ [(inst0.lastModified, key)] else s.healthyTO
-    let perp := if !inst0.ephemeral then setInsert s.perpetual key else s.perpetual
-    ({ s with insts := AL.set s.insts key inst0, instSize := s.instSize + 1,
-              healthySize := if inst0.healthy then s.healthySize + 1 else s.healthySize,
-              healthyTO := hto, perpetual := perp },
-      UpdType.new, none)
+    let r := applyTag (keepOwner inst0 old) old tag
+    (s.replaceInst old r.1 fromSync, r.2,
+      if !old.clientId.isEmpty && (keepOwner inst0 old).clientId != old.clientId then some old.clientId else none)
+  | none => (s.insertInst inst0 fromSync, UpdType.new, none)
+
+/-- the guard of `Service::remove_instance`: an ephemeral instance is not removed on behalf of a
+different, non-empty client id -/
+def Svc.refuses (s : Svc) (key : ShortKey) (client : Option String) : Bool :=
+  match client, AL.get? s.insts key with
+  | some c, some old => old.ephemeral && !c.isEmpty && old.clientId != c
+  | _, _ => false
+
+/-- bookkeeping when the stored instance `old` is removed -/
+def Svc.dropInst (s : Svc) (key : ShortKey) (old : Inst) (now : Int) : Svc :=
+  { s with insts := AL.erase s.insts key,
+           perpetual := (if !old.ephemeral then s.perpetual.erase key else s.perpetual),
+           instSize := s.instSize - 1,
+           lastEmpty := (if s.instSize - 1 == 0 then now else s.lastEmpty),
+           healthySize := (if old.healthy then s.healthySize - 1 else s.healthySize) }
 
 /-- `Service::remove_instance`; `now` feeds `last_empty_times` -/
 def Svc.removeInstance (s : Svc) (key : ShortKey) (client : Option String) (now : Int) : Svc × Option Inst :=
-  let refused := match client, AL.get? s.insts key with
-    | some c, some old => old.ephemeral && !c.isEmpty && old.clientId != c
-    | _, _ => false
-  if refused then (s, none)
+  if s.refuses key client then (s, none)
   else match AL.get? s.insts key with
     | none => (s, none)
-    | some old =>
-      let size := s.instSize - 1
-      ({ s with insts := AL.erase s.insts key,
-                perpetual := if !old.ephemeral then s.perpetual.erase key else s.perpetual,
-                instSize := size,
-                lastEmpty := if size == 0 then now else s.lastEmpty,
-                healthySize := if old.healthy then s.healthySize - 1 else s.healthySize }, some old)
+    | some old => (s.dropInst key old now, some old)
 
 /-- `Service::update_instance_healthy_invalid` -/
 def Svc.markUnhealthy (s : Svc) (key : ShortKey) : Svc :=
@@ -155,25 +173,37 @@ def Svc.markUnhealthy (s : Svc) (key : ShortKey) : Svc :=
       { s with healthySize := s.healthySize - 1,
                unhealthyTO := s.unhealthyTO ++ [(i.lastModified, key)],
                insts := AL.set s.insts key { i with healthy := false } }
-    else s
+    else
+      -- already unhealthy (e.g. registered that way): still queued for removal
+      { s with unhealthyTO := s.unhealthyTO ++ [(i.lastModified, key)] }
+
+/-- re-validation in `time_check`: an instance that is not subject to the heartbeat clock, or that was
+heard of after `limit`, is skipped -/
+def Svc.skipTimeout (s : Svc) (key : ShortKey) (limit : Int) : Bool :=
+  match AL.get? s.insts key with
+  | some i => !i.enableTimeout || i.lastModified > limit
+  | none => false
+
+def Svc.expireStep (now limit : Int) (acc : Svc × List ShortKey) (key : ShortKey) : Svc × List ShortKey :=
+  if acc.1.skipTimeout key limit then acc else ((acc.1.removeInstance key none now).1, acc.2 ++ [key])
+
+def Svc.unhealthyStep (limit : Int) (acc : Svc × List ShortKey) (key : ShortKey) : Svc × List ShortKey :=
+  if acc.1.skipTimeout key limit then acc else (acc.1.markUnhealthy key, acc.2 ++ [key])
+
+/-- first loop of `time_check`: removals -/
+def Svc.expirePass (s : Svc) (offlineTime now : Int) : Svc × List ShortKey :=
+  (toSplit s.unhealthyTO offlineTime).1.foldl (Svc.expireStep now offlineTime)
+    ({ s with unhealthyTO := (toSplit s.unhealthyTO offlineTime).2 }, [])
+
+/-- second loop of `time_check`: healthy -> unhealthy -/
+def Svc.unhealthyPass (s : Svc) (healthyTime : Int) : Svc × List ShortKey :=
+  (toSplit s.healthyTO healthyTime).1.foldl (Svc.unhealthyStep healthyTime)
+    ({ s with healthyTO := (toSplit s.healthyTO healthyTime).2 }, [])
 
 /-- `Service::time_check(healthy_time, offline_time)`; returns removed and updated keys -/
 def Svc.timeCheck (s : Svc) (healthyTime offlineTime now : Int) : Svc × List ShortKey × List ShortKey :=
-  let (dueU, restU) := toSplit s.unhealthyTO offlineTime
-  let s1 := { s with unhealthyTO := restU }
-  let (s2, removed) := dueU.foldl (fun (acc : Svc × List ShortKey) key =>
-      let skip := match AL.get? acc.1.insts key with
-        | some i => !i.enableTimeout || i.lastModified > offlineTime
-        | none => false
-      if skip then acc else ((acc.1.removeInstance key none now).1, acc.2 ++ [key])) (s1, [])
-  let (dueH, restH) := toSplit s2.healthyTO healthyTime
-  let s3 := { s2 with healthyTO := restH }
-  let (s4, updated) := dueH.foldl (fun (acc : Svc × List ShortKey) key =>
-      let skip := match AL.get? acc.1.insts key with
-        | some i => !i.enableTimeout || i.lastModified > healthyTime
-        | none => false
-      if skip then acc else (acc.1.markUnhealthy key, acc.2 ++ [key])) (s3, [])
-  (s4, removed, updated)
+  (((s.expirePass offlineTime now).1.unhealthyPass healthyTime).1, (s.expirePass offlineTime now).2,
+    ((s.expirePass offlineTime now).1.unhealthyPass healthyTime).2)
 
 /-- `do_refresh_process_range`: re-arm the health time-out of HTTP instances taken over from a node -/
 def Svc.refreshRange (s : Svc) : Svc :=
@@ -197,26 +227,46 @@ def clientRemoveKey (cs : List (String × List IKey)) (c : String) (k : IKey) : 
   | some ks => AL.set cs c (ks.erase k)
   | none => cs
 
+/-- an HTTP write for a key this node is responsible for is stamped as locally owned -/
+def Naming.atRange (n : Naming) (hash : Nat) : Bool :=
+  match n.range with
+  | some r => isRange r hash
+  | none => false
+
+def Naming.stampLocal (n : Naming) (inst : Inst) (hash : Nat) : Inst :=
+  if n.atRange hash && !inst.fromGrpc then
+    { inst with fromCluster := 0, clientId := "" }
+  else inst
+
+/-- the reverse map is keyed by the client id the instance ends up with -/
+def recordClient (cs : List (String × List IKey)) (ik : IKey) : Option Inst → List (String × List IKey)
+  | some fin =>
+    if (fin.fromGrpc || fin.fromCluster > 0) && !fin.clientId.isEmpty then
+      AL.set cs fin.clientId (setInsert ((AL.get? cs fin.clientId).getD []) ik)
+    else cs
+  | none => cs
+
+def dropReplaced (cs : List (String × List IKey)) (ik : IKey) : Option String → List (String × List IKey)
+  | some oldc => clientRemoveKey cs oldc ik
+  | none => cs
+
+/-- the part of `NamingActor::update_instance` after the service has been found -/
+def Naming.putInstance (n : Naming) (k : SKey) (svc : Svc) (inst : Inst) (tag : Option Tag) (fromSync : Bool) :
+    Naming :=
+  { n with services := AL.set n.services k (svc.updateInstance inst tag fromSync).1,
+           clientSets := dropReplaced
+             (recordClient n.clientSets ⟨k, inst.short⟩
+               (AL.get? (svc.updateInstance inst tag fromSync).1.insts inst.short))
+             ⟨k, inst.short⟩ (svc.updateInstance inst tag fromSync).2.2 }
+
 /-- `NamingActor::update_instance`; `hash` = the service key's hash value (for the process range) -/
 def Naming.updateInstance (n0 : Naming) (k : SKey) (inst0 : Inst) (tag : Option Tag) (fromSync : Bool)
     (now : Int) (hash : Nat) : Naming :=
-  let inst1 := { inst0 with lastModified := now }
-  let n := n0.ensureService k now
-  let atRange := match n.range with | some r => isRange r hash | none => false
-  let inst := if atRange && !inst1.fromGrpc then { inst1 with fromCluster := 0, clientId := "" } else inst1
-  match AL.get? n.services k with
-  | none => n
+  match AL.get? (n0.ensureService k now).services k with
+  | none => n0.ensureService k now
   | some svc =>
-    let ikey : IKey := ⟨k, inst.short⟩
-    -- the reverse map is updated with the *incoming* client id, before the service decides ownership
-    let cs := if (inst.fromGrpc || inst.fromCluster > 0) && !inst.clientId.isEmpty then
-        AL.set n.clientSets inst.clientId (setInsert ((AL.get? n.clientSets inst.clientId).getD []) ikey)
-      else n.clientSets
-    let (svc', _, replaceOld) := svc.updateInstance inst tag fromSync
-    let cs2 := match replaceOld with
-      | some oldc => clientRemoveKey cs oldc ikey
-      | none => cs
-    { n with services := AL.set n.services k svc', clientSets := cs2 }
+    (n0.ensureService k now).putInstance k svc
+      ((n0.ensureService k now).stampLocal { inst0 with lastModified := now } hash) tag fromSync
 
 /-- `NamingActor::remove_instance` -/
 def Naming.removeInstance (n : Naming) (k : SKey) (short : ShortKey) (client : Option String) (now : Int) :
@@ -224,32 +274,41 @@ def Naming.removeInstance (n : Naming) (k : SKey) (short : ShortKey) (client : O
   match AL.get? n.services k with
   | none => (n, none)
   | some svc =>
-    let (svc', old) := svc.removeInstance short client now
-    let es := if svc'.instSize ≤ 0 then n.emptySet ++ [(now + n.cfg.serviceTimeout, k)] else n.emptySet
-    let cs := match old with
-      | some o => if !o.clientId.isEmpty then clientRemoveKey n.clientSets o.clientId ⟨k, short⟩ else n.clientSets
-      | none => n.clientSets
-    ({ n with services := AL.set n.services k svc', emptySet := es, clientSets := cs }, old)
+    ({ n with services := AL.set n.services k (svc.removeInstance short client now).1,
+              emptySet := (if (svc.removeInstance short client now).1.instSize ≤ 0
+                           then n.emptySet ++ [(now + n.cfg.serviceTimeout, k)] else n.emptySet),
+              clientSets := (match (svc.removeInstance short client now).2 with
+                | some o => if !o.clientId.isEmpty then clientRemoveKey n.clientSets o.clientId ⟨k, short⟩ else n.clientSets
+                | none => n.clientSets) },
+     (svc.removeInstance short client now).2)
 
-/-- `remove_client_instance` (RemoveClient / RemoveClientFromCluster) -/
+/-- is the recorded instance a persistent one? (a closing connection leaves those alone) -/
+def Naming.isPersistent (n : Naming) (ik : IKey) : Bool :=
+  match AL.get? n.services ik.skey with
+  | some svc => (match AL.get? svc.insts ik.short with | some i => !i.ephemeral | none => false)
+  | none => false
+
+def Naming.removeClientStep (c : String) (now : Int) (acc : Naming) (ik : IKey) : Naming :=
+  if acc.isPersistent ik then acc else (acc.removeInstance ik.skey ik.short (some c) now).1
+
+/-- `remove_client_instance` (RemoveClient / RemoveClientFromCluster): only ephemeral instances of the
+connection are dropped -/
 def Naming.removeClient (n : Naming) (c : String) (now : Int) : Naming :=
   match AL.get? n.clientSets c with
   | none => n
-  | some keys =>
-    let n1 := { n with clientSets := AL.erase n.clientSets c }
-    keys.foldl (fun acc ik => (acc.removeInstance ik.skey ik.short (some c) now).1) n1
+  | some keys => keys.foldl (Naming.removeClientStep c now) { n with clientSets := AL.erase n.clientSets c }
+
+def Naming.timeCheckStep (now : Int) (acc : Naming) (e : SKey × Svc) : Naming :=
+  match AL.get? acc.services e.1 with
+  | none => acc
+  | some svc =>
+    { acc with services := AL.set acc.services e.1
+                 (svc.timeCheck (now - acc.cfg.healthTimeout) (now - acc.cfg.instTimeout) now).1,
+               emptySet := (if (svc.timeCheck (now - acc.cfg.healthTimeout) (now - acc.cfg.instTimeout) now).1.instSize ≤ 0
+                            then acc.emptySet ++ [(now + acc.cfg.serviceTimeout, e.1)] else acc.emptySet) }
 
 /-- `NamingActor::time_check` (all services; the per-call size cap is not modelled) -/
-def Naming.timeCheck (n : Naming) (now : Int) : Naming :=
-  let ht := now - n.cfg.healthTimeout
-  let ot := now - n.cfg.instTimeout
-  n.services.foldl (fun acc e =>
-    match AL.get? acc.services e.1 with
-    | none => acc
-    | some svc =>
-      let (svc', _, _) := svc.timeCheck ht ot now
-      let es := if svc'.instSize ≤ 0 then acc.emptySet ++ [(now + acc.cfg.serviceTimeout, e.1)] else acc.emptySet
-      { acc with services := AL.set acc.services e.1 svc', emptySet := es }) n
+def Naming.timeCheck (n : Naming) (now : Int) : Naming := n.services.foldl (Naming.timeCheckStep now) n
 
 /-- `clear_one_empty_service` -/
 def Naming.clearOneEmpty (n : Naming) (k : SKey) (now : Int) : Naming :=
